@@ -18,6 +18,101 @@ def folded(B, o):
     return any(q.ends(v, *FOLD) for v in B.via(o))
 
 
+def descendants(F, fid):
+    out = []
+    for c in F.children(fid):
+        out.append(c)
+        out += descendants(F, c["id"])
+    return out
+
+
+# iterator vocabulary: what the method does with the order in which the elements arrive
+ADAPTORS = ("filter", "map", "filter_map", "flat_map", "flatten", "cloned", "copied", "chain", "inspect", "by_ref", "into_iter", "iter",
+            "values", "keys")
+INSENSITIVE = ("any", "all", "count", "collect", "sum", "product", "size_hint")
+SELECTING = ("find", "find_map", "position", "rposition")   # fine when only the presence of a result is used
+SENSITIVE = ("next", "nth", "last", "take", "skip", "take_while", "skip_while", "map_while", "step_by", "fold", "try_fold", "reduce",
+             "min", "max", "min_by", "max_by", "min_by_key", "max_by_key", "enumerate", "zip", "rev", "scan", "next_back", "nth_back",
+             "for_each", "try_for_each", "peekable", "first", "pop", "remove", "swap_remove", "split_first", "split_last", "index")
+SEQ_OK = ("is_empty", "len", "contains", "deref", "as_slice")
+
+
+def presence_only(B, l):
+    """the Option in local l is only asked whether it is Some: discriminant reads and is_some/is_none, the payload is never taken"""
+    for u in B.uses_of(l):
+        if u[0] == "assign":
+            rv = u[2]["rv"]
+            if rv["k"] == "discr" and not rv["p"]["p"]:
+                continue
+            if rv["k"] == "ref" and not rv["p"]["p"] and presence_only_ref(B, u[2]["lhs"]["l"]):
+                continue
+            return False
+        if u[0] == "callarg":
+            if q.ends(q.base_name(u[3] or u[2] or ""), "is_some", "is_none"):
+                continue
+            return False
+        return False
+    return True
+
+
+def presence_only_ref(B, l):
+    us = B.uses_of(l)
+    return bool(us) and all(u[0] == "callarg" and q.ends(q.base_name(u[3] or u[2] or ""), "is_some", "is_none") for u in us)
+
+
+def iterator_calls(F, fns):
+    """(fn, body, block, method, order-insensitive?, reason) for every Iterator / sequence call of the given functions; the `next` of a
+    `for` loop is the loop rules' subject and is skipped"""
+    out = []
+    for f in fns:
+        B = mir.Body(f, F)
+        for bi, w, r, t in B.calls:
+            full = r or w or ""
+            name = q.base_name(full)
+            short = name.rsplit("::", 1)[-1]
+            is_iter = "iter::Iterator" in name or "iter::Iterator" in (w or "") or "IntoIterator" in name or "DoubleEndedIterator" in name
+            is_seq = any(x in name for x in ("vec::Vec", "slice::", "HashMap", "HashSet", "BTreeMap", "ops::Index", "ops::Deref"))
+            if not (is_iter or (is_seq and (short in SENSITIVE or short in ADAPTORS))):
+                continue
+            if t.get("exp") and "ForLoop" in t["exp"]:
+                continue
+            if short in ADAPTORS:
+                out.append((f, B, bi, short, True, "order-preserving adaptor"))
+            elif short in INSENSITIVE:
+                out.append((f, B, bi, short, True, "a quantifier / aggregate over all elements"))
+            elif short in SELECTING:
+                po = not t["dest"]["p"] and presence_only(B, t["dest"]["l"])
+                out.append((f, B, bi, short, po, "only the presence of a result is used" if po else "hands out the first matching element"))
+            elif short in SENSITIVE:
+                if is_seq and short in ("remove", "index") and any(x in name for x in ("HashMap", "HashSet", "BTreeMap")):
+                    continue
+                out.append((f, B, bi, short, False, "selects or combines elements by position"))
+            else:
+                out.append((f, B, bi, short, False, "is not in the reviewed iterator vocabulary"))
+    return out
+
+
+def combinator_outcomes(F, R, ia, B, ret_out):
+    """combinator spelling: what is returned after the disabled short-circuit is a quantifier's result, `false`, or defaultAllowed"""
+    bad = []
+    for b, v in ret_out:
+        if v[0] == "const":
+            continue
+        if v[0] == "expr":
+            import re
+            okc = INSENSITIVE + ("is_empty", "is_some", "is_none", "contains_key", "eq", "ne")
+
+            def fine(x):
+                m = re.search(r"::(\w+)[\"'], \d+, \(\)\)$", x)
+                return "defaultAllowed" in x or x.startswith("('const'") or (x.startswith("('call'") and m is not None and m.group(1) in okc)
+            if all(fine(x) for x in v[1]):
+                continue
+        bad.append((B.line(b), v))
+    R.check(not bad, "C02.R2", "C02.R2:%s:combinator-outcomes" % ia["id"], "-",
+            "every value is_allowed returns is a constant, self.defaultAllowed, or the result of a quantifier over the iteration",
+            "is_allowed returns %s" % bad)
+
+
 def run(F, R, tier):
     R.explanation = (
         "The property is an equivalence with a specification over every rule document; functional equivalence is NOT decided. Decided "
@@ -87,8 +182,19 @@ def run(F, R, tier):
         loop_region = set()
         if len(outer) == 1:
             loop_region = B.reach([outer[0][1][1]], cut_edges=[outer[0][2]])
-        R.check(len(outer) == 1 and len(fors) >= 2, "C02.R2", "C02.R2:%s:iteration-found" % ia["id"], "-",
-                "is_allowed iterates privileges and, nested, their assignments (%d for-loops, outermost identified)" % len(fors))
+        family = [ia] + descendants(F, ia["id"])
+        cons = iterator_calls(F, family)
+        n_pm = sum(len(mir.Body(f, F).calls_named("Privilege::is_match")) for f in family)
+        n_im = sum(len(mir.Body(f, F).calls_named("Identity::is_match")) for f in family)
+        combinator_form = not fors
+        R.check((len(outer) == 1 or (combinator_form and cons)) and n_pm and n_im, "C02.R2", "C02.R2:%s:iteration-found" % ia["id"], "-",
+                "is_allowed examines the privileges and, nested, their assignments (%d for-loop(s), %d iterator call(s) in the function and its "
+                "closures; Privilege::is_match x%d, Identity::is_match x%d)" % (len(fors), len(cons), n_pm, n_im))
+        # whichever way the iteration is spelled, nothing in it may select by position: the maps are hash maps, "the first match" is arbitrary
+        for f, Bf, bi, name, verdict, why in cons:
+            R.check(verdict, "C02.R2", "C02.R2:%s:order-insensitive:%s" % (f["id"], name), q.where(Bf, bi),
+                    "iterator call `%s` does not depend on the iteration order (%s)" % (name, why),
+                    "`%s` %s: which privilege / identity decides depends on the hash map's iteration order" % (name, why))
         for bi, blk in enumerate(B.blocks):
             if blk["cleanup"] or bi not in B.live_blocks():
                 continue
@@ -98,7 +204,9 @@ def run(F, R, tier):
                     val = ("const", bool(rv["o"].get("val"))) if rv["k"] == "use" and rv["o"]["k"] == "const" else ("expr", sorted(map(str, B.origins(rv.get("o", {"k": "const"})))) if rv["k"] == "use" else rv["k"])
                     (ret_in_loop if bi in loop_region else ret_out).append((bi, val))
         bad = [(B.line(b), v) for b, v in ret_in_loop if v != ("const", True)]
-        R.check(not bad and ret_in_loop, "C02.R2", "C02.R2:%s:loop-exits-only-true" % ia["id"], "%s:%s" % (ia["file"], ia["line"]),
+        if combinator_form:
+            combinator_outcomes(F, R, ia, B, ret_out)
+        R.check(combinator_form or (not bad and ret_in_loop), "C02.R2", "C02.R2:%s:loop-exits-only-true" % ia["id"], "%s:%s" % (ia["file"], ia["line"]),
                 "inside the iteration over privileges/assignments the only value returned is `true` (%d site(s))" % len(ret_in_loop),
                 "a value other than `true` is returned from inside the iteration (first matching entry decides => order dependent): %s" % bad)
         flag = [i for i, l in enumerate(B.locals) if l.get("name") == "any_privilege_matched"]
@@ -111,12 +219,12 @@ def run(F, R, tier):
                 else:
                     vals.append(("nonconst", bi in loop_region))
             okf = all(v[0] is True for v in vals if v[1]) and any(v == (False, False) for v in vals) and all(v[0] in (True, False) for v in vals)
-        R.check(okf, "C02.R2", "C02.R2:%s:flag-monotone" % ia["id"], "-",
+        R.check(okf or combinator_form, "C02.R2", "C02.R2:%s:flag-monotone" % ia["id"], "-",
                 "any_privilege_matched starts false and is only ever set to true inside the loops")
         # after the loops: false under the flag, else defaultAllowed
         outs = {str(v) for b, v in ret_out}
         has_default = any(v[0] == "expr" and any("defaultAllowed" in x for x in v[1]) for b, v in ret_out)
-        R.check(("const", False) in [v for b, v in ret_out] and has_default, "C02.R2", "C02.R2:%s:post-loop-outcomes" % ia["id"], "-",
+        R.check((combinator_form or ("const", False) in [v for b, v in ret_out]) and has_default, "C02.R2", "C02.R2:%s:post-loop-outcomes" % ia["id"], "-",
                 "after the loops the result is `false` (privilege matched, no identity) or self.defaultAllowed: %s" % sorted(outs),
                 "post-loop results: %s" % sorted(outs))
         # before the iteration there is exactly one way out: the disabled short-circuit (true). Any other pre-loop result ("no assignments
@@ -125,6 +233,10 @@ def run(F, R, tier):
         if len(outer) == 1:
             before = B.reach([0], cut_blocks=[outer[0][0]])
             pre = [(b, v) for b, v in ret_out if b in before]
+        elif combinator_form:
+            first = [bi for f, Bf, bi, name, verdict, why in cons if f is ia]
+            before = B.reach([0], cut_blocks=first)
+            pre = [(b, v) for b, v in ret_out if b in before and B.path([0], [b], cut_blocks=first) is not None]
         R.check(len(pre) == 1 and pre[0][1] == ("const", True), "C02.R2", "C02.R2:%s:no-decision-before-the-loop" % ia["id"], "-",
                 "the only result produced before the privileges are examined is the disabled short-circuit (`true`)",
                 "results produced before the privilege loop: %s - a decision is taken without matching the URL against the privileges "
@@ -136,7 +248,7 @@ def run(F, R, tier):
             e, tr, fa = B.truth_edges(sb)
             if e[0] == "op" and e[1]["k"] in ("copy", "move") and flag and e[1]["p"]["l"] == flag[0]:
                 guards.append(tr)
-        R.check(bool(guards) and B.path([0], false_blocks, cut_edges=guards) is None, "C02.R2", "C02.R2:%s:false-from-flag" % ia["id"], "-",
+        R.check(combinator_form or (bool(guards) and B.path([0], false_blocks, cut_edges=guards) is None), "C02.R2", "C02.R2:%s:false-from-flag" % ia["id"], "-",
                 "`false` is returned only through any_privilege_matched == true")
         # R4 disabled
         dis = []
@@ -147,7 +259,7 @@ def run(F, R, tier):
                 if any(v and v[1] == "Disabled" for v in vs):
                     is_eq = q.ends(e[1], "eq")
                     dis.append((tr, fa) if is_eq else (fa, tr))
-        ism = [c[0] for c in B.calls_named("Privilege::is_match", "Identity::is_match")]
+        ism = [c[0] for c in B.calls_named("Privilege::is_match", "Identity::is_match")] + [bi for f, Bf, bi, name, verdict, why in cons if f is ia]
         if not dis:
             R.fail("C02.R4", "C02.R4:%s:test-missing" % ia["id"], "-", "no test of self.mode against AuthorizationMode::Disabled")
         else:
